@@ -27,12 +27,15 @@ Qed.
 
 (* the shell volume is the documented 4/3 pi (hi^3 - lo^3) and the bin label its midpoint *)
 Theorem shell_and_centre_forms pi lo hi :
-  rdf_shell_volume pi lo hi == (4 # 3) * pi * (hi * hi * hi - lo * lo * lo) /\
-  rdf_bin_centre lo hi == (lo + hi) / (2 # 1).
-Proof. unfold rdf_shell_volume, rdf_bin_centre. split; field. Qed.
+  rdf_shell_volume pi lo hi == spec_shell_volume pi lo hi /\
+  rdf_bin_centre lo hi == spec_bin_centre lo hi.
+Proof. unfold rdf_shell_volume, rdf_bin_centre, spec_shell_volume, spec_bin_centre. split; field. Qed.
 
-Theorem norm_form npairs siv v : rdf_norm npairs siv v == npairs * siv * v.
-Proof. unfold rdf_norm. ring. Qed.
+Theorem norm_form npairs siv v : rdf_norm npairs siv v == spec_norm npairs siv v.
+Proof. unfold rdf_norm, spec_norm. ring. Qed.
+
+Theorem nbins_quotient_form r0 r1 bw : rdf_nbins_quotient r0 r1 bw == spec_nbins_quotient r0 r1 bw.
+Proof. unfold rdf_nbins_quotient, spec_nbins_quotient. reflexivity. Qed.
 
 (* ------------------------------------------------------------------ bins *)
 Definition in_bin (lo hi : Q) (is_last : bool) (x : Q) : Prop :=
